@@ -71,6 +71,10 @@ PROPS["C15"] = engine_prop("C15", ["proofs/AnchorsSitesCtx.v"], "C15",
     "nothing, nil is returned only if no check (including the exit-path check) saw it; every cancellation position of generated runs is replayed on the "
     "real engine through a call-counting context.")
 
+EVAL_MODEL = ["gen/CmpGen.v", "gen/ArithGen.v", "gen/OpsGen.v", "gen/EngineGen.v"]
+PROPS["C01"] = dict(proof_files=EVAL_MODEL, props_files=[], harness="C01", theorems=[], trusted=ENGINE_TRUST, assumptions=ENGINE_ASSUME, explanation="(in progress)")
+PROPS["C02"] = dict(proof_files=EVAL_MODEL, props_files=[], harness="C02", theorems=[], trusted=ENGINE_TRUST, assumptions=ENGINE_ASSUME, explanation="(in progress)")
+
 NOT_APPLICABLE = {}
 
 def _eng_text(what):
